@@ -1,6 +1,7 @@
 package vh
 
 import (
+	"encoding/json"
 	"flag"
 	"fmt"
 	"os"
@@ -68,6 +69,20 @@ func childMain() {
 		LeaveCaseDir(dir)
 		if len(cases) > 0 {
 			fmt.Println(cases[0])
+		}
+	case "example":
+		var req struct {
+			Spec  *GenSpec `json:"spec"`
+			Seeds []int    `json:"seeds"`
+		}
+		if err := json.Unmarshal([]byte(os.Getenv("VERIF_CASE")), &req); err != nil {
+			os.Exit(7)
+		}
+		env := &BuildEnv{}
+		env.X = NewInterp(nil)
+		g := req.Spec.Build(env)
+		for _, s := range req.Seeds {
+			fmt.Println(strings.ReplaceAll(exampleOf(g, s), "\n", "\\n"))
 		}
 	case "crash":
 		crashChild()
